@@ -90,6 +90,9 @@ def run(ctx):
                 ctx.violation(dict(case, state=repr(obs["state"]), outcome=obs["outcome"]), "after the render the buffer stack / caller stack / nextcaller are not what they were",
                               tags=["c13.balance"])
                 continue
+            if any(p_[2] for p_ in obs["probes"]):
+                ctx.violation(dict(case, probes=repr(obs["probes"])[:300]), "nextcaller is still set after a call with content was abandoned: the next def called by name gets a stale caller",
+                              tags=["c13.stale-nextcaller"])
             # later output goes to the output buffer
             obs["context"].write("AFTER")
             if obs["buffer"].getvalue() != obs["output"] + "AFTER":
